@@ -290,6 +290,9 @@ def run_case(case):
         for s in case["serials"]:
             r = dict(DEFAULT)
             r["name"] = "HH11" if s % 2 else "C"
+            # hetero records too: the record name abuts a five-digit serial
+            if s in (2, 10000, 99999, 100001, 1000000):
+                r["record"] = "HETATM"
             probes[s] = r
         atoms = []
         recs = []
